@@ -153,6 +153,7 @@ func otherCorpora(e *core.Env, per int) []*pgen.Case {
 			WrapMode: []string{"none", "wrapErrors", "using"}[(i/3)%3], WrapLevel: []string{"conv", "cli"}[(i/9)%2], Fallible: i%2 == 0}))
 		cases = append(cases, pgen.GraphCase(sub(), fmt.Sprintf("xg%04d", i), pgen.GraphOpts{Format: f, Seed: seed, NValues: 4, MaxFaults: 2,
 			WrapMode: []string{"none", "wrapErrors", "using"}[(i/3)%3]}))
+		cases = append(cases, pgen.FuzzMethodSetCase(sub(), fmt.Sprintf("xm%04d", i)), pgen.FuzzMethodSetCase(sub(), fmt.Sprintf("xn%04d", i)))
 		ec, _ := pgen.EnumCase(sub(), fmt.Sprintf("xe%04d", i), pgen.EnumOpts{Format: f, Seed: seed, NValues: 5})
 		cases = append(cases, ec)
 		cases = append(cases, pgen.UpdateCase(sub(), fmt.Sprintf("xu%04d", i), pgen.UpdateOpts{Format: f, Seed: seed, NValues: 9}))
